@@ -1,8 +1,9 @@
 /-
   C01 — full redraw (contents_formatted / state_formatted) reproduces the screen.
 
-  Proved so far (see `partial` in the registry; the general row/cursor induction of DESIGN
-  appendix A is not finished):
+  This file holds the witness and the kernel-evaluated examples; the general theorems (every reachable screen,
+  cursor anywhere, scrolled views, receivers fed earlier redraws) are in RowDraw, GridDraw, C01grid, C01cursor,
+  C01full, C01view, Reach, MiscC01 (see the registry):
   * `F9_witness` : the known finding — with a scrolled view and the cursor in the pending-wrap
     column the redraw does NOT reproduce the visible state (kernel-evaluated on the model).
   * `redraw_examples` : kernel-evaluated reproductions of non-trivial screens (wide characters,
